@@ -44,15 +44,15 @@ This == Slice(s, lo, hi)
 
 \* the code of `next` / `next_back` of the forward types: [item |-> None | Some(<<offset, scalar>>), lo, hi, so]
 Step(item, nlo, nhi, nso) == [item |-> item, lo |-> nlo, hi |-> nhi, so |-> nso]
-Front == IF lo = hi THEN Step(None, lo, hi, so)
+FrontStep == IF lo = hi THEN Step(None, lo, hi, so)
          ELSE LET cut == NextBoundary(This, 0) IN
               Step(Some(<<so, DecodeImpl(SubSeq(This, 1, cut))>>), lo + cut, hi, so + cut)
-Back  == IF lo = hi THEN Step(None, lo, hi, so)
+BackStep  == IF lo = hi THEN Step(None, lo, hi, so)
          ELSE LET cut == PrevBoundary(This, Len(This)) IN
               Step(Some(<<so + cut, DecodeImpl(SubSeq(This, cut + 1, Len(This)))>>), lo, lo + cut, so)
 
-DoNext     == IF fwd THEN Front ELSE Back
-DoNextBack == IF fwd THEN Back ELSE Front
+DoNext     == IF fwd THEN FrontStep ELSE BackStep
+DoNextBack == IF fwd THEN BackStep ELSE FrontStep
 
 Init == /\ kind \in {"chars", "char_indices"} /\ s \in Strs
         /\ lo = 0 /\ hi = Len(s) /\ so = 0 /\ fwd = TRUE /\ hist = <<>>
@@ -81,10 +81,10 @@ WindowInv == /\ 0 <= lo /\ lo <= hi /\ hi <= Len(s)
              /\ so = lo                                                    \* start_offset is the byte index
 
 Refines ==
-    /\ Front.item = (IF Remaining = <<>> THEN None ELSE Some(Remaining[1]))
-    /\ Back.item  = (IF Remaining = <<>> THEN None ELSE Some(Remaining[Len(Remaining)]))
+    /\ FrontStep.item = (IF Remaining = <<>> THEN None ELSE Some(Remaining[1]))
+    /\ BackStep.item  = (IF Remaining = <<>> THEN None ELSE Some(Remaining[Len(Remaining)]))
 
 \* precondition of from_u32_unchecked: what the decoder produced is a scalar value
-ScalarInv == /\ IsSome(Front.item) => IsScalar(Front.item.some[2])
-             /\ IsSome(Back.item)  => IsScalar(Back.item.some[2])
+ScalarInv == /\ IsSome(FrontStep.item) => IsScalar(FrontStep.item.some[2])
+             /\ IsSome(BackStep.item)  => IsScalar(BackStep.item.some[2])
 =============================================================================
